@@ -3,7 +3,7 @@
 use crate::engine::*;
 use crate::gen_sys::{SysCfg, gen_system, show_system};
 use crate::props::c08::silence_stderr_once;
-use crate::sysutil::{compare_positional, environments, positional_symbols};
+use crate::sysutil::{compare_positional, positional_symbols};
 use crate::tape::{SplitMix, Tape, hash_bytes};
 use patronus::btor2;
 use patronus::expr::{Context, Expr, TypeCheck};
@@ -137,7 +137,7 @@ fn roundtrip(
         Ok(Some(s)) => s,
     };
     let syms = positional_symbols(sys);
-    let (envs, _) = environments(ctx, &syms, rng, exh_bits, samples);
+    let (envs, _) = crate::sysutil::environments_for(ctx, &syms, &sys.get_all_exprs(), rng, exh_bits, samples);
     if let Err(m) = compare_positional(ctx, sys, &sys2, &envs) {
         // localise by operator of the root that differs: use the kind and the first word of msg
         return Err(Failure::new(
